@@ -1,5 +1,8 @@
-(* Properties/C14.v — syncing: loading is all-or-nothing on the loaded flag. *)
-From Verif Require Import U64 Spice SpiceP RepoConstants Ledger ListFacts LedgerInv LedgerGraph Ancestors LedgerFunds LedgerReach TruncateP LoadWitness.
+(* Properties/C14.v — syncing: a node that loads the stream of a never-truncated peer reproduces its vertices, parent
+   links, transaction index, genesis wallet and every balance; loading is all-or-nothing on the loaded flag; what is NOT
+   reproduced (admission counters; a truncated peer) is refuted / a known finding. *)
+From Verif Require Import U64 Spice SpiceP RepoConstants Ledger ListFacts LedgerInv LedgerGraph Ancestors LedgerFunds LedgerReach TruncateP TruncateFunds LoadWitness LoadP.
+From Coq Require Import Permutation.
 From Coq Require Import NArith.
 
 (* Whatever the stream, a load that does not succeed leaves the node marked as not loaded. *)
@@ -20,6 +23,36 @@ Theorem C14_malformed_stream_refused : forall L s topo,
   snd (load_dag L s topo) = false.
 Proof. exact load_rejects_malformed. Qed.
 Print Assumptions C14_malformed_stream_refused.
+
+(* Every reachable ledger has at most one parentless vertex, and it is the genesis vertex sealed by the genesis wallet
+   (so a peer's own stream never trips LoadDag's "second self-sealed vertex" rule). *)
+Theorem C14_one_genesis : forall me L, reach me L ->
+  (forall v, In v (vertices L) -> v_left v = 0%N -> is_genesis_vtx v /\ v_signer v = genesis L) /\
+  (forall u v, In u (vertices L) -> In v (vertices L) -> v_left u = 0%N -> v_left v = 0%N -> u = v).
+Proof. exact reach_roots. Qed.
+Print Assumptions C14_one_genesis.
+
+(* The stream of a reachable peer that never truncated and still holds its (non-empty) genesis vertex, in ANY order,
+   loads; the loaded node holds exactly the peer's vertices in the peer's order with set-equal parent links, maps every
+   transaction hash to the same vertex, recognises the same genesis wallet, and answers every balance query (any address,
+   any tip, any cancellation point) exactly as the peer does. *)
+Theorem C14_load_reproduces_peer : forall me Ls s me',
+  reach me Ls -> st_vtx Ls = [] -> Permutation s (map nv (dag Ls)) ->
+  (exists gv, In gv (map nv (dag Ls)) /\ v_left gv = 0%N /\ is_empty_trx (v_trx gv) = false) ->
+  exists L', load_dag (init me') s (map nv (dag Ls)) = (L', true) /\
+    dag L' = rebuilt Ls /\ Forall2 node_equiv (dag L') (dag Ls) /\
+    (forall th, assoc th (index L') = assoc th (index Ls)) /\
+    genesis L' = genesis Ls /\ loaded L' = true /\
+    (st_funds Ls = [] -> forall a tip b, balance L' a (Node (nv tip) (load_parents (nv tip))) b = balance Ls a tip b).
+Proof. exact load_reproduces_reachable. Qed.
+Print Assumptions C14_load_reproduces_peer.
+
+(* the premises are met by a concrete reachable peer (the one of the refutation below): the theorem is not vacuous *)
+Theorem C14_premises_satisfiable :
+  reach 1%N w_src /\ st_vtx w_src = [] /\ Permutation w_stream (map nv (dag w_src)) /\
+  (exists gv, In gv (map nv (dag w_src)) /\ v_left gv = 0%N /\ is_empty_trx (v_trx gv) = false).
+Proof. exact load_premises_satisfiable. Qed.
+Print Assumptions C14_premises_satisfiable.
 
 (* "From then on accepts and rejects gossip exactly as the peer does" is FALSE of the faithful model (and of the code:
    KNOWN-FINDING followup-gossip-differs:weight-window-not-reproduced): the loaded node holds the peer's vertices,
